@@ -1081,7 +1081,20 @@ fn oracle_script(names: &Names, script: usize, probes: Vec<String>, ops: &[Op], 
                         exp_src,
                         src_doc_problems,
                         dst_ctx_problems,
-                        parent_path: dst.path().ok().or_else(|| if dst.parent().ok().flatten().is_none() { Some(String::new()) } else { None }),
+                        parent_path: {
+                            // the path prefix of what is created below dst: the path of the nearest identifiable element
+                            let mut cur = dst.clone();
+                            loop {
+                                if cur.is_identifiable() {
+                                    break cur.path().ok();
+                                }
+                                match cur.parent() {
+                                    Ok(Some(p)) => cur = p,
+                                    Ok(None) => break Some(String::new()),
+                                    Err(_) => break None,
+                                }
+                            }
+                        },
                         src,
                         dst,
                     }
@@ -1256,6 +1269,12 @@ fn oracle_script(names: &Names, script: usize, probes: Vec<String>, ops: &[Op], 
                             }
                             if has_foreign_enum_text(&copy, v as u32) {
                                 cl.push("enum-text");
+                            }
+                            if let Some((o, nw)) = &expect_name {
+                                // the suffix _k pushed the name beyond the 128 characters an identifier may have
+                                if o.len() <= 128 && nw.len() > 128 && first.starts_with("PStringValueTooLong") {
+                                    cl.push("name-too-long");
+                                }
                             }
                             fd.fail(script, opi, "VALIDATE", format!("classes={} op=[{}] src={} srcver={:?} dstver={:?} first={}", if cl.is_empty() { "-".to_string() } else { cl.join(",") }, op.line(), pc.src.element_name(), pc.src_ver.map(|x| x as u32), v as u32, first));
                         }
@@ -1579,6 +1598,16 @@ fn findings_main(args: &[String]) {
             println!("FINDING-SCRIPT 5 NOT-CONSTRUCTIBLE");
         }
         emit(5, "copy-nameless-shortname", b);
+    }
+    // 6: known: the suffix that make_unique_item_name appends can push a name beyond the maximum length of an
+    //    identifier (128): the copy is written with a SHORT-NAME that no loader accepts
+    {
+        let (mut b, el) = start(0x100000);
+        let mut name = vec![b'N'];
+        name.extend(std::iter::repeat(b'a').take(127));
+        let x = b.h(Op::CreateNamed(el, n.elidx("SYSTEM-SIGNAL"), name));
+        b.push(Op::Copy(el, x));
+        emit(6, "copy-name-too-long", b);
     }
     std::fs::write(out, text).unwrap();
 }
